@@ -4,6 +4,7 @@ import (
 	"github.com/nspcc-dev/dbft/verifh/ev"
 	"github.com/nspcc-dev/dbft/verifh/mon"
 	"github.com/nspcc-dev/dbft/verifh/vnet"
+	"strconv"
 )
 
 func C09(r *ev.Run) {
@@ -32,6 +33,11 @@ func C09(r *ev.Run) {
 		b.Go()
 		Report(r, b, live.Viols)
 		Report(r, b, agree.Viols)
+		for _, p := range b.C.Panics {
+			// a validator whose library call panicked has crashed: it does not decide any more
+			r.Violation("node-crashed:"+p.API, "n"+strconv.Itoa(p.Node)+" crashed in "+p.API+"("+p.Arg+") and makes no further progress: "+p.Value,
+				map[string]any{"spec": s, "cfg": CfgSummary(b.C), "panic": p, "tail": tailStrings(b.C, 60)})
+		}
 		Account(r, b, live.Cnt)
 		if live.Inconclusive {
 			r.Count("runs-inconclusive-step-cap", 1)
